@@ -146,4 +146,4 @@ def body(case):
 
 
 def tests(tier):
-    return [TestSpec("part-specs-roundtrip", gen_case, body, {"quick": 4000, "thorough": 400000}, tape=1536)]
+    return [TestSpec("part-specs-roundtrip", gen_case, body, {"quick": 4000, "thorough": 400000}, tape=1536, fuzz={"thorough": 40000})]
